@@ -33,8 +33,9 @@ CONSTANTS Kind,            \* "bridge" | "l1info"
           MaxEvents,       \* events per block 0..MaxEvents
           MaxLeaves,       \* bound on fresh leaf values over a behaviour
           MaxOps,          \* bound on the number of operations of a behaviour
-          Faults,          \* subset of {"stmt", "commit", "ctx"}: which fault kinds are explored
+          Faults,          \* subset of {"stmt", "commit", "ctx", "read", "reorg"}: which fault kinds are explored
           AllowGap,        \* bridge: deposits whose DepositCount skips one value (leads to the halted state)
+          Dups,            \* bridge: a new deposit may repeat the content of an earlier one (the same leaf value at another index)
           AllowRestart, AllowReorg,
           Rollups, ExitRoots   \* l1info: rollup ids (1..n) and the pool of exit-root atoms (0 = the zero hash)
 
@@ -177,7 +178,8 @@ Process(b, evs, f) ==
   /\ IF mem.halted
      THEN /\ lastRes' = "inconsistent" /\ UNCHANGED <<blk, aroots, rht, uroots, urht, gers, mem>>
      ELSE
-       LET failAt == IF f.kind \in {"stmt", "ctx"} THEN f.at ELSE 0
+       \* "read": a SELECT in front of write f.at fails (or that write itself) - for the design the same as a failing write
+       LET failAt == IF f.kind \in {"stmt", "ctx", "read"} THEN f.at ELSE 0
            a0 == [ok |-> (failAt # 1), ar |-> aroots, nd |-> rht, ur |-> uroots, und |-> urht, m |-> mem, cbs |-> 0,
                   out |-> <<>>, stmt |-> 1, halt |-> FALSE, f5 |-> FALSE, gr |-> gers]  \* statement 1 = INSERT INTO block
            a  == Run(a0, b, evs, 0, failAt)
@@ -238,6 +240,7 @@ DepositCount == Len(LeavesOf(blk))
 Shapes == IF Kind = "ger" THEN {<<"ger">>} \cup {<<"gerrm", x>> : x \in 1..MaxLeaves}
           ELSE IF Kind = "bridge"
           THEN {<<"leaf">>, <<"leafR">>, <<"other">>} \cup (IF AllowGap THEN {<<"gap">>} ELSE {})
+               \cup (IF Dups THEN {<<"leafD", k>> : k \in 1..MaxLeaves} ELSE {})
           ELSE {<<"leaf">>, <<"leafR">>, <<"v2good">>, <<"v2bad">>} \cup {<<"verify", r, x>> : r \in Rollups, x \in ExitRoots}
 
 RECURSIVE Concrete(_, _, _)
@@ -248,6 +251,7 @@ Concrete(shapes, nl, dc) ==   \* turn a sequence of shapes into events with fres
        ELSE IF s = "gerrm" THEN <<[t |-> "gerrm", x |-> Head(shapes)[2]]>> \o Concrete(Tail(shapes), nl, dc)
        ELSE IF s = "leaf" THEN <<[t |-> "leaf", x |-> nl, dc |-> dc]>> \o Concrete(Tail(shapes), nl + 1, dc + 1)
        ELSE IF s = "leafR" THEN <<[t |-> "leaf", x |-> reuse[dc], dc |-> dc]>> \o Concrete(Tail(shapes), nl, dc + 1)
+       ELSE IF s = "leafD" THEN <<[t |-> "leaf", x |-> Head(shapes)[2], dc |-> dc]>> \o Concrete(Tail(shapes), nl, dc + 1)
        ELSE IF s = "gap" THEN <<[t |-> "leaf", x |-> nl, dc |-> dc + 1]>> \o Concrete(Tail(shapes), nl + 1, dc + 2)
        ELSE IF s = "other" THEN <<[t |-> "other"]>> \o Concrete(Tail(shapes), nl, dc)
        ELSE IF s = "v2good" THEN <<[t |-> "v2", good |-> TRUE]>> \o Concrete(Tail(shapes), nl, dc)
@@ -273,14 +277,16 @@ DoProcess ==
     /\ \A i \in DOMAIN ss : ss[i][1] = "gerrm" => ss[i][2] < nextLeaf      \* only a GER that was injected can be removed
     \* a dropped leaf can only be mined again at the index it had
     /\ \A i \in DOMAIN ss : ss[i][1] = "leafR" =>
-          (DepositCount + Cardinality({j \in 1..(i - 1) : ss[j][1] \in {"leaf", "leafR", "gap"}})) \in DOMAIN reuse
-    /\ ~(\E i, j \in DOMAIN ss : ss[i][1] = "gap" /\ ss[j][1] = "leafR")
+          (DepositCount + Cardinality({j \in 1..(i - 1) : ss[j][1] \in {"leaf", "leafR", "leafD", "gap"}})) \in DOMAIN reuse
+    /\ ~(\E i, j \in DOMAIN ss : ss[i][1] = "gap" /\ ss[j][1] \in {"leafR", "leafD"})
+    /\ \A i \in DOMAIN ss : ss[i][1] = "leafD" => ss[i][2] < nextLeaf       \* only the content of a deposit that existed
     /\ LET b   == LastBlock + 1
            evs == Concrete(ss, nextLeaf, DepositCount)
            n   == NStmts(b, evs)
        IN /\ \E f \in {[kind |-> "none", at |-> 0]}
                    \cup (IF "stmt" \in Faults THEN {[kind |-> "stmt", at |-> k] : k \in 1..n} ELSE {})
                    \cup (IF "ctx" \in Faults THEN {[kind |-> "ctx", at |-> k] : k \in 1..n} ELSE {})
+                   \cup (IF "read" \in Faults THEN {[kind |-> "read", at |-> k] : k \in 1..n} ELSE {})
                    \cup (IF "commit" \in Faults THEN {[kind |-> "commit", at |-> 0]} ELSE {}) :
                Process(b, evs, f)
           \* a block that was not stored is retried with the same content: leaf atoms are consumed only on success
